@@ -53,6 +53,18 @@ def check(ctx: Ctx) -> str:
     ok = len(cmp_) == 1 and isinstance(cmp_[0].comparators[0], ast.Constant) and cmp_[0].comparators[0].value == const
     ok = ok or (len(cmp_) == 1 and ast.unparse(cmp_[0].comparators[0]) == "VAR_LOAD_RESOLVE")
     ctx.check(ok, "tracking:constant", "meta:TrackingCodeGenerator.enter_frame", "resolve instruction constant", f"the tracking generator must test action == {const!r} (idtracking.VAR_LOAD_RESOLVE)", ef.loc())
+    adds = [c for c in astq.calls(ef.node) if astq.callee(c) == "self.undeclared_identifiers.add"]
+    ctx.need(len(adds) == 1, "undeclared_identifiers.add(...) not found exactly once")
+    conds: list[str] = []
+    for g, pol in astq.all_guards(ef.node, adds[0]):
+        parts = g.values if isinstance(g, ast.BoolOp) and isinstance(g.op, ast.And) and pol else [g]
+        for part in parts:
+            conds.append(("" if pol else "not ") + ast.unparse(part))
+    allowed = {"action == 'resolve'", "action == VAR_LOAD_RESOLVE", "param not in self.environment.globals"}
+    extra = [c for c in conds if c not in allowed]
+    ctx.check(not extra and any("action ==" in c for c in conds), "tracking:guards-exact", "meta:TrackingCodeGenerator.enter_frame", f"extra conditions {extra} before recording a name",
+              f"a context lookup is recorded only under {conds}; every condition beyond `action == resolve` and `not an environment global` ({extra}) hides names that the generated code still resolves from the render context at run time", ef.loc(adds[0]), detail={"conditions": conds})
+    ctx.check(not [n_ for n_ in ast.walk(ef.node) if isinstance(n_, ast.Continue)] or not extra, "tracking:no-skip", "meta:TrackingCodeGenerator.enter_frame", "loads skipped with continue", "no load may be skipped", ef.loc())
     ctx.check("param not in self.environment.globals" in s and "self.undeclared_identifiers.add(param)" in s, "tracking:record", "meta:TrackingCodeGenerator.enter_frame", "records the name", "every resolved name that is not an environment global must be recorded", ef.loc())
     wr = repo.func("meta:TrackingCodeGenerator.write")
     body = [x for x in wr.node.body if not (isinstance(x, ast.Expr) and isinstance(x.value, ast.Constant))]  # type: ignore[attr-defined]
